@@ -963,6 +963,22 @@ fn vp_native_builder_features_roundtrip() {
         assert_eq!(r.body, text.as_bytes());
         let r = wire_of(crate::post("http://h.test/").text(text.to_string()).header("content-type", "text/csv")); cases += 1;
         assert_eq!(r.body, text.as_bytes()); assert_eq!(header(&r, "content-type"), vec![&b"text/csv"[..]]);
+        // the caller's Content-Type set before the body setter is the one that is sent
+        let r = wire_of(crate::post("http://h.test/").header("Content-Type", "text/markdown").text(text)); cases += 1;
+        assert_eq!(r.body, text.as_bytes()); assert_eq!(header(&r, "content-type"), vec![&b"text/markdown"[..]], "a Content-Type set before text()");
+    }
+    {
+        let path = std::env::temp_dir().join(format!("vp_native_body_ct_{}", std::process::id()));
+        std::fs::write(&path, b"file data").unwrap();
+        let r = wire_of(crate::put("http://h.test/").header("content-type", "application/x-custom").file(std::fs::File::open(&path).unwrap())); cases += 1;
+        let _ = std::fs::remove_file(&path);
+        assert_eq!(header(&r, "content-type"), vec![&b"application/x-custom"[..]], "a Content-Type set before file()");
+        let r = wire_of(crate::post("http://h.test/").header("Content-Type", "application/vnd.api+json").json(&vec![1]).unwrap()); cases += 1;
+        assert_eq!(header(&r, "content-type"), vec![&b"application/vnd.api+json"[..]], "a Content-Type set before json()");
+        let r = wire_of(crate::post("http://h.test/").header("Content-Type", "application/vnd.api+json").json_streaming(vec![1])); cases += 1;
+        assert_eq!(header(&r, "content-type"), vec![&b"application/vnd.api+json"[..]], "a Content-Type set before json_streaming()");
+        let r = wire_of(crate::post("http://h.test/").header("Content-Type", "application/x-form-custom").form(&[("a", "b")]).unwrap()); cases += 1;
+        assert_eq!(header(&r, "content-type"), vec![&b"application/x-form-custom"[..]], "a Content-Type set before form()");
     }
     let r = wire_of(crate::post("http://h.test/").json(&vec![1, 2, 3]).unwrap()); cases += 1;
     assert_eq!(r.body, b"[1,2,3]"); assert_eq!(header(&r, "content-length"), vec![&b"7"[..]]);
